@@ -89,6 +89,7 @@ func GenBasic(t *rapid.T) BasicCase {
 	case "other":
 		c.Other = kit.BStr(rapid.SampledFrom(otherForBasic).Draw(t, "other"))
 	}
+	c.Debug = rapid.IntRange(0, 3).Draw(t, "debug-transport") == 0
 	return c
 }
 
@@ -130,6 +131,7 @@ func GenKey(t *rapid.T) KeyCase {
 			c.Value = kit.BStr(nonEmpty(headerSafe(string(c.Value)), "k"))
 		}
 	}
+	c.Debug = rapid.IntRange(0, 3).Draw(t, "debug-transport") == 0
 	return c
 }
 
@@ -182,6 +184,7 @@ func GenBearer(t *rapid.T) BearerCase {
 	} else {
 		c.Method = rapid.SampledFrom(methodsAny).Draw(t, "method")
 	}
+	c.Debug = rapid.IntRange(0, 3).Draw(t, "debug-transport") == 0
 	return c
 }
 
@@ -226,6 +229,7 @@ func GenDefault(t *rapid.T) DefaultCase {
 		r := genCred(t, "R", false)
 		c.Rotated = &r
 	}
+	c.Debug = rapid.IntRange(0, 3).Draw(t, "debug-transport") == 0
 	return c
 }
 
